@@ -62,6 +62,49 @@ pub enum RunEnd {
     Timeout,
 }
 
+/// What a front-end does between two clock edges: it looks. Public read-only calls only.
+pub fn observe(m: &Machine) -> u64 {
+    let mut acc = 0u64;
+    for a in [0x00u8, 0x10, 0x80, 0xEE, 0xEF, 0xF0, 0xF1, 0xF3, 0xF9, 0xFA, 0xFC, 0xFF] {
+        acc = acc.wrapping_mul(31).wrapping_add(m.bus().read(a) as u64);
+    }
+    acc ^= m.bus().memory()[0x20] as u64;
+    acc ^= m.signals().next_microprogram_address() as u64;
+    acc ^= m.is_instruction_done() as u64;
+    acc ^= m.registers().content()[3] as u64;
+    acc ^= m.word().bits() as u64;
+    acc ^= (m.state() as u64) << 4;
+    acc ^= m.bus().output_ff() as u64;
+    acc
+}
+
+/// `to_boundary` with the machine being looked at after every edge.
+pub fn to_boundary_observed(m: &mut Machine, max: u32, look: bool) -> RunEnd {
+    if !look {
+        return to_boundary(m, max);
+    }
+    let mut n = 0;
+    let mut left = !m.is_instruction_done();
+    observe(m);
+    while n < max {
+        m.raw_mut().trigger_clock_edge();
+        observe(m);
+        n += 1;
+        if m.state() != State::Running {
+            return RunEnd::Halted(n, m.state());
+        }
+        let done = m.is_instruction_done();
+        if !left {
+            if !done {
+                left = true;
+            }
+        } else if done {
+            return RunEnd::Boundary(n);
+        }
+    }
+    RunEnd::Timeout
+}
+
 /// Clock until the next time a fetch word *becomes* current, or a halt, or `max` edges.
 /// If the machine currently sits on a fetch word, that one is left first.
 pub fn to_boundary(m: &mut Machine, max: u32) -> RunEnd {
